@@ -23,6 +23,14 @@ Pos(u, v, de) == LET n == Abs(u[1] - v[1]) + Abs(u[2] - v[2])
 AbsCat(u, v, de) == IF u[3] = v[3] THEN RZero ELSE de
 \* precomputed: the matrix entry FOR THE TWO CATEGORY NAMES (M indexed by alphabetical rank) * delta_empty
 PreCat(u, v, M, de) == RMul(M[u[3]][v[3]], de)
+\* user-defined (LambdaCategoricalDissimilarity): F[i][j] = value of the user's function for the names of ranks i > j
+\* (integers; the function is asked with the alphabetically LATER name first); the matrix is symmetric by construction,
+\* zero on the diagonal, and divided by max(1, largest value asked for)
+LamMax(F) == Max({1} \cup UNION {{F[i][j] : j \in 1..(i - 1)} : i \in 1..Len(F)})     \* over the values asked for (i > j)
+LamCat(u, v, F, de) == IF u[3] = v[3] THEN RZero
+                       ELSE LET hi == IF u[3] > v[3] THEN u[3] ELSE v[3]
+                                lo == IF u[3] > v[3] THEN v[3] ELSE u[3]
+                            IN RMul(<<F[hi][lo], LamMax(F)>>, de)
 \* ordinal / numerical: proportional to the distance of the positions SUPPLIED FOR THOSE LABELS
 \* (supplied[k] = rank of the k-th supplied label, pos[k] = its position)
 PosOf(l, supplied, pos) == pos[CHOOSE k \in 1..Len(supplied) : supplied[k] = l]
